@@ -6,7 +6,7 @@ PROPS["C07"] = dict(
          "on Redis (batches of up to 8 scripts run concurrently, each on its own server). The hammer unit starts a waiter for the current version and writes the key (Put or CAS) at the same moment, "
          "300..2000(6000) times on 1..6 keys in parallel: after the write returned the waiter must return nil within 5 s. The squeeze unit forces a writer (Put/CAS/PutMany/Delete) between the critical sections of a starting waiter through the "
          "storage mutex, keeps a waiter that registered a moment before the expiry of its record off the processor until the expiry has passed (GOMAXPROCS(1), mutex handed to a spinning holder; afterwards ErrNotExist and an empty waiter table), and applies a Put "
-         "between the expiry of a record and the expiry handling of the waiter parked on it. A deadline unit (both backends, real clock) runs waiters under a 10-400 ms deadline on a key that is not touched (or gets a new version at a drawn moment): the context's error may be returned only once ctx.Err() is non-nil (read the moment the call returns - exact), an untouched key yields neither nil nor ErrNotExist, a change well before the deadline yields nil. The Redis unit starts with systematic scripts: every kind of version argument (current, stale, garbage, EMPTY, seven near misses) against a live key. A waiter's version argument is the current version, a stale one, garbage, or a near miss of the current one (other letter case, leading/trailing blank, NUL, "
+         "between the expiry of a record and the expiry handling of the waiter parked on it. A deadline unit (both backends, real clock) runs waiters under a 10-400 ms deadline on a key that is not touched (or gets a new version at a drawn moment): the context's error may be returned only once ctx.Err() is non-nil (read the moment the call returns - exact), an untouched key yields neither nil nor ErrNotExist, a change well before the deadline yields nil. On Redis the deadline unit also owns the connection (go-redis Dialer; the wrapper honours the read deadline the client sets and a timed-out read comes back a millisecond after it): the reply of the waiter's k-th poll is withheld until 2 s after the deadline (the waiter must be back within deadline + 0.7 s, not with nil or ErrNotExist); 'joiner' cases withhold a poll reply of a first waiter for 500 ms, rewrite the key through another client and start a second waiter on the same client with the NEW version (it must stay blocked until its own deadline, which lies after the arrival of the withheld reply; the first waiter must end with nil); 'repeat' cases let 2-6 waiters in a row lose a poll reply across their deadline on a client with a pool of two connections and then require an ordinary waiter on that client to see an ordinary change within 1.5 s. Lagging-server steps in the scripts write a record whose expiry passes on the client's clock while the server (whose clock stands still) keeps serving it: the key exists. The Redis unit starts with systematic scripts: every kind of version argument (current, stale, garbage, EMPTY, seven near misses) against a live key. A waiter's version argument is the current version, a stale one, garbage, or a near miss of the current one (other letter case, leading/trailing blank, NUL, "
          "one character less or different): anything but the exact current version must return nil at once. Redis scripts also contain 'fault' steps (every Redis command fails for 180 ms): a waiter may give up with the storage's error or ride "
          "it out, but must not report a change or an absence that is not there; in-memory scripts also write records that are already expired "
          "(the key is then gone for every waiter). Put and CAS steps may write a 'journal' value - the bytes the storage held for the key just before (read from the Redis server; the previous version string in memory) - so that the old version text is part of the new record. A quiet unit (Redis) parks two waiters, lets 2.1 s or 4.3 s of real time pass with nothing happening and then wakes them by Put/Delete/CAS/PutMany/cancel: they must have returned 1 s after the 200 ms settling time (three runs in a row must miss that bound before it is reported). After every step every waiter must have returned iff "
